@@ -3,6 +3,9 @@
 // QXmppIncomingClientPrivate::checkCredentials), the REAL SASL server objects (QXmppSasl.cpp) and nonza parsers, from an arbitrary
 // private state {jid (empty = unauthenticated), resource, domain, SASL object kind/step/user}.
 #include "c16.h"
+#ifndef C16_PAYLOAD
+#define C16_PAYLOAD 5   // bytes of the PLAIN message
+#endif
 
 // tables of c16_env.c (vp_c16_pick)
 enum { TB_TAG = 0, TB_TYPE = 1, TB_CHILD = 2, TB_CHILDNS = 3, TB_NS = 4, TB_MECH = 5, TB_OTAG = 6, TB_STAG = 7 };
@@ -146,7 +149,7 @@ static void sasl_auth(bool sasl2)
 {
     World w(2);
     unsigned mech = vp_case_u(0, NMECH);
-    QByteArray raw = asciiBytes(6); vp_assume(!raw.isEmpty());
+    QByteArray raw = asciiBytes(C16_PAYLOAD); vp_assume(!raw.isEmpty());
     QDomElement el;
     if (!sasl2) { el = mkElement(QStringLiteral("auth"), ns_sasl.toString()); setB64Text(el, raw); }
     else {
